@@ -36,7 +36,7 @@ func TestMain(m *testing.M) {
 	evid.Rule("a source and a destination database over 2–3 interfaces × 3 days (around a year/month boundary and a leap day) are written through goProbe's DBWriter (encoder per side); each (interface, day) per side is absent, clearly partial (starts ≥ 2·tolerance+10 min late and/or ends that early, 1–6 blocks) or clearly complete " +
 		"(first block ≤ day start + tolerance/2, last block + 5 min ≥ day end − tolerance/2 with a regular 5-minute tail, 0–4 blocks in between); block timestamps come from a small alphabet of 5-minute slots plus off-grid values and are deliberately shared between the two sides (always with different contents); " +
 		"one pair in six may also hold partial days that start on time, end early and whose last block follows a long gap (00:00, 00:05, …, 13:00); empty sources/destinations and a missing destination directory are forced now and then; " +
-		"options: interface selection (all / subset / with a name that is not in the source), overwrite, tolerance ∈ {0, 150 s, 300 s, 1 h, 6 h}, an optional dry run before the real merge, process time zone ∈ {UTC, New York, Kolkata}; " +
+		"options: interface selection (all / subset / with a name that is not in the source), overwrite, tolerance ∈ {unset (0 or negative: the library default of 300 s applies), 150 s, 300 s, 1 h, 6 h}, an optional dry run before the real merge, process time zone ∈ {UTC, New York, Kolkata}; " +
 		"MergeDatabases runs in-process (it starts no goroutines); source and destination trees are hashed file by file around every run; after the merge the destination tree is read back through GPDir and decoded independently (timestamps, flows, drops, day summaries in .blockmeta and in the directory name), " +
 		"queried once through the engine in an executor child (all interfaces, time label, all attributes), then the same merge is run a second time; " +
 		"non-trivial = the real merge rebuilds at least one day that has at least one timestamp present on both sides; distinct by (source, destination, options, zone)")
@@ -68,8 +68,9 @@ type tolerances struct {
 func tolOf(sec int64) tolerances {
 	tl := tolerances{opt: sec, c: sec, display: fmt.Sprintf("%ds", sec)}
 	p := sec
-	if sec == 0 { // "unset": the library falls back to 300 s; complete days are complete even with tolerance 0
+	if sec <= 0 { // unset / zero / negative: the library falls back to its default of 300 s (defaultCompleteTolerance), for both sides
 		p = 300
+		tl.c = 300
 	}
 	tl.pm = 2*p + 600
 	return tl
@@ -503,7 +504,7 @@ func drawCase(t *rapid.T, zones []string) *mergeCase {
 	c := &mergeCase{Src: &model.DB{Ifaces: map[string][]model.Block{}}, Dst: &model.DB{Ifaces: map[string][]model.Block{}},
 		SrcCls: map[string]string{}, DstCls: map[string]string{}}
 	c.TZ = rapid.SampledFrom(zones).Draw(t, "tz")
-	c.Tol = tolOf(rapid.SampledFrom([]int64{0, 150, 150, 300, 3600, 21600}).Draw(t, "tolerance"))
+	c.Tol = tolOf(rapid.SampledFrom([]int64{0, 0, -60, 150, 150, 300, 3600, 21600}).Draw(t, "tolerance"))
 	c.Overwrite = rapid.Bool().Draw(t, "overwrite")
 	c.DryFirst = rapid.IntRange(0, 2).Draw(t, "dry-run-first") == 0
 	d0 := rapid.IntRange(0, len(gen.DefaultDays)-3).Draw(t, "day0")
